@@ -149,14 +149,26 @@ func c12Run(t *testing.T, r *vfRand, nPeers, nActions, k int) (steps []c12Step, 
 			useful := d.routingTable.UsefulNewPeer(p)
 			_ = useful
 			cur.events = append(cur.events, fmt.Sprintf("PeerChange %s true", kad(p)))
-			_ = emitter1.Emit(event.EvtPeerIdentificationCompleted{Peer: p})
+			// reported by identification on a new connection, or by an identify push on a live one
+			if r.Chance(70) {
+				_ = emitter1.Emit(event.EvtPeerIdentificationCompleted{Peer: p})
+			} else {
+				cur.action = "protocols-added"
+				_ = emitter2.Emit(event.EvtPeerProtocolsUpdated{Peer: p})
+			}
 			quiesce(context.Background(), nil, nil)
 		case x < 42: // the peer stops speaking the protocol
 			p := ids[r.Intn(len(ids))]
 			cur.action = "protocols-removed"
 			_ = node.h.ps.RemoveProtocols(p, proto)
 			cur.events = append(cur.events, fmt.Sprintf("PeerChange %s false", kad(p)))
-			_ = emitter2.Emit(event.EvtPeerProtocolsUpdated{Peer: p})
+			// reported by an identify push, or found out when the peer is identified again on a new connection
+			if r.Bool() {
+				_ = emitter2.Emit(event.EvtPeerProtocolsUpdated{Peer: p})
+			} else {
+				cur.action = "reidentified-without-protocol"
+				_ = emitter1.Emit(event.EvtPeerIdentificationCompleted{Peer: p})
+			}
 			quiesce(context.Background(), nil, nil)
 		case x < 55: // behaviour flips
 			cur.action = "flip"
